@@ -518,6 +518,14 @@ func RunTransfer(env *Env, plan *TransferPlan) {
 			a = &PeerActor{Spec: ps, Host: env.NewHost(ps.Name, "peer"), T: T, Seed: env.R.Uint64()}
 		}
 		a.Lim, a.SutAddr = lim, sutAddr
+		// oracle parameters come from the configuration the SUT really runs with, not from
+		// the plan (a minimised plan may have dropped the knob)
+		a.Spec.B.MetaLimit = int(sut.Cfg.MaxMetadataSize)
+		if a.Spec.B.HostileSpec != nil {
+			hs := *a.Spec.B.HostileSpec
+			hs.Max = uint32(sut.Cfg.MaxMetadataSize)
+			a.Spec.B.HostileSpec = &hs
+		}
 		a.Hooks = hooks(a)
 		a.Start()
 		w.peers = append(w.peers, a)
@@ -627,7 +635,17 @@ func RunTransfer(env *Env, plan *TransferPlan) {
 	env.Stats["status"] = st.Status.String()
 	env.Stats["have"] = st.Pieces.Have
 	env.Stats["writes"] = w.writesBegun
-	if plan.Liveness && !complete {
+	hasSource := false
+	for _, ps := range plan.Peers {
+		hasSource = hasSource || ps.Honest
+	}
+	for _, ws := range plan.Webseeds {
+		hasSource = hasSource || ws.Honest
+	}
+	if plan.Liveness && !complete && !hasSource {
+		simrt.Count("probe.transfer.liveness_skipped_no_source", 1)
+	}
+	if plan.Liveness && !complete && hasSource {
 		var ps []string
 		sut.In(func() {
 			for _, p := range w.tor.Peers() {
